@@ -1,14 +1,15 @@
 from vp.api import Q, Mutant
-TITLE = "Accelerator tasks see the newest data (reduced: stage-in source/version choice; eviction safety of reserve_space)"
+TITLE = "Accelerator tasks see the newest data (reduced: stage-in source/version choice of parsec_device_data_stage_in)"
 U = "parsec/mca/device/device_gpu.c"
 D = "parsec/data.c"
 H = "parsec/data_internal.h"
 OUTSIDE = [
+    "O1 eviction safety of parsec_device_data_reserve_space: NOT encoded (harness/C43/NOT_APPLICABLE.md: no verdict in 5-15 min even for one LRU member / one flow; work-in-progress harness evict.c is kept but not part of any query)",
     "everything behind the vendor runtime: streams, events, real transfers, completion callbacks (parsec_device_callback_complete_push), kernel_pop write-back, W2R tasks",
     "histories: each query is ONE call of one function from a symbolic state; that the assumed state invariants are preserved by the rest of the device layer "
     "(kernel_push/pop/epilog, the LRU discipline 'dirty copies live in gpu_mem_owned_lru') is NOT shown",
     "concurrency between the device manager thread and other threads (readers CAS, data locks): sequential execution only",
-    "more than one data per stage-in call, more than 3 devices, more than 2 flows / 3 LRU members in reserve_space",
+    "more than one data per stage-in call, more than 3 devices",
     "transfer_gpu.c (the D2H W2R task class) is not encoded",
     "inputs on another accelerator WITHOUT peer access (assumption A1): in that case stage_in falls back to the host copy without checking its "
     "validity/version (solver counterexample with -DNO_A1; whether the runtime can produce that call is not established)",
@@ -75,4 +76,20 @@ def mutants(ctx):
     ]
 
 
-CLAIMED = False
+CLAIMED = True
+MANIFEST = {
+ "engine": "cbmc-src",
+ "text": "Heavily reduced. Bounded model checking of ONE call of the real parsec_device_data_stage_in (device_gpu.c, never built or run in this sandbox) together with the real "
+         "data.c ownership functions, from EVERY state of one data with a host copy, the destination copy on the accelerator and an optional copy on a second accelerator "
+         "(symbolic coherency, versions 0..3, readers incl. the 'being repurposed' sentinel, transfer status, owner, LRU membership) that satisfies the data representation "
+         "invariant and the caller contract, for every access mode, kernel/prefetch task, peer-access setting and result of the DSL callback. Shown: a transfer is issued only "
+         "for a reading flow whose device copy does not already hold the newest version; its source is a valid, complete copy of the same data holding the newest version, "
+         "and an accelerator source is pinned by a reader; the destination is stamped with the newest version (+1 for a writer) and marked INVALID/UNDER_TRANSFER; DONE without "
+         "transfer only if the device copy already holds the newest version (or the data is NEW); retries (AGAIN/NEXT) and failures leave readers, coherency, versions and owner "
+         "unchanged; a copy handed to a writer leaves the clean LRU. 8 seeded changes of device_gpu.c/data.c are reported. NOT covered: eviction safety of "
+         "parsec_device_data_reserve_space (not encodable within reach, see NOT_APPLICABLE.md), histories, write-back, streams/events.",
+ "note": "one call from a symbolic pre-state constrained by an invariant that is assumed, not shown inductive over the device layer; assumptions A1 (input on another accelerator implies "
+         "peer access - without it the solver finds stage_in falling back to a host copy of unchecked validity/version) and A2 (a copy under repurposing is not the only newest "
+         "copy); device modules, DSL stage_in callback and allocator are stubs; sequential.",
+ "technique": "CBMC bounded symbolic execution of the real C units + SAT (cadical); symbolic pre-state constrained by the invariant, one operation",
+}
